@@ -182,6 +182,10 @@ pub struct SlotModel {
 }
 
 pub struct History<'a> {
+    /// at least one un-timed send of this run yielded between its slot reservation and its push (the window that
+    /// is only open on real threads): an un-timed send may then take one poll more, and its message may
+    /// enter the queue later than its slot was reserved
+    pub split: bool,
     pub ev: &'a [Ev],
     pub sc: &'a Scenario,
     pub ops: Vec<OpRec>,
@@ -232,6 +236,7 @@ impl<'a> History<'a> {
     pub fn build(sc: &'a Scenario, r: &'a RunResult, default_cap: usize) -> History<'a> {
         let ev = &r.log[..];
         let mut h = History {
+            split: r.rep.sends_split > 0,
             ev,
             sc,
             ops: Vec::new(),
